@@ -3,6 +3,7 @@
 // stderr into an exception, restarts the driver and lets Hypothesis shrink.
 #define DRV_DEFINE_HOOKS
 #include <tuple>
+#include <unistd.h>
 #include "drv_common.h"
 #include "shape_case.h"
 #include "face_report.h"
@@ -164,6 +165,7 @@ int main(int argc, char **argv) {
         if (fread(&len, 4, 1, stdin) != 1) break;
         req.resize(len);
         if (len && fread(req.data(), 1, len, stdin) != len) break;
+        alarm(300);        // backstop: a request that never returns must not outlive a dead client (the client's own watchdog is 8..60 s)
         Reader rd(req.data(), req.size());
         std::string out;
         switch (rd.u8()) {
@@ -181,6 +183,7 @@ int main(int argc, char **argv) {
         fputs(out.c_str(), stdout);
         fputc('\n', stdout);
         fflush(stdout);
+        alarm(0);
     }
     return 0;
 }
